@@ -159,6 +159,8 @@ def run(ctx, rep):
         c02.r_saturated(sh, rep)
 
     rep.guarded("R02-SATURATED", saturated)
+    rep.rule("R01-HOISTNAME", "the UPLC variable a module-level function or constant is hoisted under is an injective function of (module, name): module and name are joined by something neither can contain", floor=5)
+    rep.guarded("R01-HOISTNAME", lambda: r_hoistname(sh, rep))
     rep.rule("R01-TYPEKEY", "decoder-cache keys (push_type_identity) start with a tag that is unique per type constructor", floor=4)
     rep.guarded("R01-TYPEKEY", lambda: r_typekey(sh, rep))
 
@@ -401,3 +403,42 @@ def r_listtrim(sh, rep):
         if vs & {"Middle", "Last", "_"} and "tail_present" in src:
             bad.append(sorted(vs))
     rep.check(not bad and {"First", "Only"} <= seen | ({"First", "Only"} if "_" in seen else set()), "R01-LISTTRIM", "trim#only-the-tail-position-drops-on-tail_present", sh.loc(GBUILD, ms[0]), "the arm covering %s lets `tail_present` drop a discard that is not the tail itself: `expect [a, _, _, ..] = xs` then accepts lists that are too short" % bad, sample={"arms": len(ms[0]["arms"])})
+
+
+# ---------------------------------------------------------------------------------------------------------
+# R01-HOISTNAME: flattening (module, name) into one identifier
+# ---------------------------------------------------------------------------------------------------------
+IDENT_CHARS = re.compile(r"^[a-z0-9_]*$")
+
+
+def r_hoistname(sh, rep):
+    """Every top-level function / constant is bound once, in front of the program, under a UPLC variable whose text is
+    built from its module and its name; uses refer to it by rebuilding that text. Module names and function names may
+    both contain `_`, so `{module}_{name}` (or no separator at all) maps foo.bar_baz and foo_bar.baz to the same text:
+    the inner binder shadows the outer one and both call sites run the same function. Rule: wherever a `format!` joins a
+    module component and a name component, the literal text between them contains a character that can occur in neither."""
+    n = 0
+    for rel in ("crates/aiken-lang/src/gen_uplc.rs", GBUILD):
+        for q, f in all_fns(sh.file(rel)):
+            if "body" not in f:
+                continue
+            for m in walk(f["body"]):
+                if m.get("k") != "Macro" or m.get("path") != "format" or not m.get("args"):
+                    continue
+                a0 = m["args"][0]
+                if a0.get("k") != "Lit" or a0.get("lk") != "str":
+                    continue
+                tmpl = a0["v"]
+                holes = re.findall(r"\{([^}]*)\}", tmpl)
+                rest = [sh.nsrc(rel, x) for x in m["args"][1:]]
+                names = [h if h else (rest.pop(0) if rest else "?") for h in holes]
+                mod = [i for i, x in enumerate(names) if "module" in x]
+                nam = [i for i, x in enumerate(names) if re.search(r"(func(tion)?_)?name$", x) and "module" not in x]
+                if not mod or not nam or mod[0] > nam[0]:
+                    continue
+                parts = re.split(r"\{[^}]*\}", tmpl)
+                sep = parts[mod[0] + 1] if mod[0] + 1 < len(parts) else ""
+                n += 1
+                rep.check(not IDENT_CHARS.match(sep), "R01-HOISTNAME", "%s#format(%s)" % (q.split("::")[-1], tmpl), sh.loc(rel, m), "%s flattens (module, name) into `%s`, separated by `%s`: modules `foo` / `foo_bar` with functions `bar_baz` / `baz` get the same UPLC variable, the inner definition shadows the outer one and one function's code runs at both call sites" % (q, tmpl, sep), sample={"template": tmpl})
+    if n < 5:
+        rep.bad("R01-HOISTNAME", "flattening-sites", "crates/aiken-lang/src/gen_uplc.rs", "only %d module/name flattening sites found, 7 confirmed by hand (anchor)" % n)
